@@ -1,4 +1,4 @@
-"""Reproductions of the C06 (similarity measures) defects that are still present in /repo's working tree.
+"""Reproductions of the C06 (similarity measures) defects found while building the C06 check.
 Usage: PYTHONPATH=/repo/src /venv/bin/python findings/repro_c06.py [name ...]
 Each function returns None when the property holds and a string describing the failure otherwise.
 The Coq witnesses of the same names are in coq/theories/Properties/C06.v (`*_refuted`)."""
